@@ -13,8 +13,12 @@ import (
 	"strings"
 	"testing"
 
+	wrapping "github.com/openbao/go-kms-wrapping/v2"
+	"github.com/hashicorp/go-secure-stdlib/base62"
 	"github.com/openbao/openbao/sdk/v2/helper/shamir"
 	"github.com/openbao/openbao/v2/internal/helper/namespace"
+	"github.com/openbao/openbao/v2/internal/vault/barrier"
+	vaultseal "github.com/openbao/openbao/v2/internal/vault/seal"
 	"github.com/openbao/openbao/v2/internal/zzverif/vh"
 )
 
@@ -175,5 +179,366 @@ func TestVerifC20Threshold(t *testing.T) {
 			out.Reset()
 			out.Op("sealed!VIOL:threshold genuine shares did not unseal#c20-threshold-stall", "unseal-live", thr)
 		}
+	}
+
+	c20Rotation(t, out, rng)
+}
+
+// ---------------------------------------------------------------------------------------------------
+// Rotation paths: (*SealManager).InitRotation / UpdateRotation on real unsealed cores.
+//   root-shamir : Shamir barrier, root rotation authorised by the unseal shares (KEK);
+//   root-auto   : auto-unseal test seal with recovery keys, root rotation authorised by the recovery shares;
+//   recovery    : the same seal, rotation of the recovery key itself.
+// Per submission: outcome class + len(RotationProgress); a case ends when the rotation proceeds. The property
+// predicate is evaluated here on the real outputs: "proceeded => the parts of that attempt contain at least
+// `threshold` pairwise distinct GENUINE shares of the current key", and "refused => nothing was rotated".
+
+func c20CombineClass(m string) string {
+	switch {
+	case strings.Contains(m, "less than two"):
+		return "cerr:tooFew"
+	case strings.Contains(m, "at least two bytes"):
+		return "cerr:tooShort"
+	case strings.Contains(m, "same length"):
+		return "cerr:unequal"
+	case strings.Contains(m, "duplicate"):
+		return "cerr:duplicate"
+	}
+	return "cerr:other"
+}
+
+func c20RotClass(proceeded bool, err error) string {
+	if err != nil {
+		m := err.Error()
+		switch {
+		case strings.Contains(m, "shorter than minimum"):
+			return "short"
+		case strings.Contains(m, "longer than maximum"):
+			return "long"
+		case strings.Contains(m, "already been provided"):
+			return "dup"
+		case strings.Contains(m, "failed to compute"):
+			return c20CombineClass(m)
+		case strings.Contains(m, "verification failed"), strings.Contains(m, "failed to read root key"),
+			strings.Contains(m, "failed to setup unseal key"), strings.Contains(m, "root generation aborted"):
+			return "verify-fail"
+		}
+		return "err:other:" + vh.HexS(m)
+	}
+	if proceeded {
+		return "proceeds"
+	}
+	return "pending"
+}
+
+type c20RotCore struct {
+	kind     string
+	n, t     int
+	core     *Core
+	recovery bool
+	shares   [][]byte // genuine shares of the current key
+	secret   []byte   // the key they were dealt from
+}
+
+func c20NewRotCore(t *testing.T, kind string, n, th int) *c20RotCore {
+	ctx := namespace.RootContext(context.Background())
+	rc := &c20RotCore{kind: kind, n: n, t: th, recovery: strings.HasSuffix(kind, "recovery")}
+	if strings.HasSuffix(kind, "-shamir") {
+		core, shares, _, _ := TestCoreUnsealedWithConfigs(t, &SealConfig{SecretShares: n, SecretThreshold: th}, nil)
+		rc.core, rc.shares = core, shares
+		rc.secret = c20ShamirKek(t, rc)
+	} else {
+		core, _, rec, _ := TestCoreUnsealedWithConfigSealOpts(t, &SealConfig{},
+			&SealConfig{SecretShares: n, SecretThreshold: th}, &vaultseal.TestSealOpts{Wrapper: wrapping.WrapperTypeTest})
+		rc.core, rc.shares = core, rec
+		k, err := core.seal.RecoveryKey(ctx)
+		if err != nil {
+			t.Fatalf("recovery key: %v", err)
+		}
+		rc.secret = k
+	}
+	if len(rc.shares) != n {
+		t.Fatalf("%s: %d shares, want %d", kind, len(rc.shares), n)
+	}
+	return rc
+}
+
+// the current Shamir KEK, read from the barrier's own copy (independent of shamir.Combine)
+func c20ShamirKek(t *testing.T, rc *c20RotCore) []byte {
+	ctx := namespace.RootContext(context.Background())
+	e, err := rc.core.barrier.Get(ctx, barrier.ShamirKekPath)
+	if err == nil && e != nil && len(e.Value) > 0 {
+		return append([]byte(nil), e.Value...)
+	}
+	if len(rc.shares) == 1 {
+		return append([]byte(nil), rc.shares[0]...)
+	}
+	k, err := shamir.Combine(rc.shares[:rc.t])
+	if err != nil {
+		t.Fatalf("kek: %v", err)
+	}
+	return k
+}
+
+// what must not change when a rotation is refused
+func c20RotFingerprint(rc *c20RotCore) string {
+	ctx := namespace.RootContext(context.Background())
+	var parts []string
+	if ks, err := rc.core.seal.GetStoredKeys(ctx); err == nil {
+		for _, k := range ks {
+			parts = append(parts, vh.Hex(k))
+		}
+	} else {
+		parts = append(parts, "stored-err")
+	}
+	if rc.core.seal.RecoveryKeySupported() {
+		if k, err := rc.core.seal.RecoveryKey(ctx); err == nil {
+			parts = append(parts, "rk="+vh.Hex(k))
+		}
+	} else if e, err := rc.core.barrier.Get(ctx, barrier.ShamirKekPath); err == nil && e != nil {
+		parts = append(parts, "kek="+vh.Hex(e.Value))
+	}
+	return strings.Join(parts, "|")
+}
+
+// the entry points of one path, behind one shape
+type c20Path struct {
+	lenCheck string // "-" or "min:max" when the path checks the part length first
+	init     func() error
+	nonce    func() string
+	update   func(key []byte, nonce string) (proceeded bool, res *RekeyResult, err error)
+	cancel   func()
+	progress func() int
+	rekeys   bool // a success replaces key material (fingerprint must change)
+}
+
+func c20PathFor(t *testing.T, rc *c20RotCore, n, th int) *c20Path {
+	ctx := namespace.RootContext(context.Background())
+	ns := namespace.RootNamespace
+	core := rc.core
+	sm := core.sealManager
+	min, max := core.barrier.KeyLength()
+	max += shamir.ShareOverhead
+	lc := strconv.Itoa(min) + ":" + strconv.Itoa(max)
+	newCfg := func() *SealConfig {
+		if rc.kind == "root-auto" || rc.kind == "legacy-root-auto" {
+			return &SealConfig{SecretShares: 1, SecretThreshold: 1}
+		}
+		return &SealConfig{SecretShares: n, SecretThreshold: th}
+	}
+	switch rc.kind {
+	case "root-shamir", "root-auto", "recovery":
+		return &c20Path{lenCheck: "-", rekeys: true,
+			init: func() error { _, err := sm.InitRotation(ctx, ns, newCfg(), rc.recovery); return err },
+			nonce: func() string { return sm.rotationConfig(ns.UUID, rc.recovery).Nonce },
+			update: func(key []byte, nonce string) (bool, *RekeyResult, error) {
+				res, err := sm.UpdateRotation(ctx, ns, key, nonce, rc.recovery)
+				return err == nil && res != nil, res, err
+			},
+			cancel: func() { _ = sm.CancelRotation(ctx, ns.UUID, rc.recovery) },
+			progress: func() int {
+				if cf := sm.rotationConfig(ns.UUID, rc.recovery); cf != nil {
+					return len(cf.RotationProgress)
+				}
+				return 0
+			}}
+	case "legacy-root-shamir", "legacy-root-auto", "legacy-recovery":
+		conf := func() *SealConfig {
+			if rc.recovery {
+				return core.recoveryRotationConfig
+			}
+			return core.rootRotationConfig
+		}
+		return &c20Path{lenCheck: lc, rekeys: true,
+			init: func() error {
+				if e := core.RekeyInit(newCfg(), rc.recovery); e != nil {
+					return e
+				}
+				return nil
+			},
+			nonce: func() string { return conf().Nonce },
+			update: func(key []byte, nonce string) (bool, *RekeyResult, error) {
+				res, e := core.RekeyUpdate(ctx, key, nonce, rc.recovery)
+				if e != nil {
+					return false, nil, e
+				}
+				return res != nil, res, nil
+			},
+			cancel: func() { _ = core.RekeyCancel(rc.recovery) },
+			progress: func() int {
+				if cf := conf(); cf != nil {
+					return len(cf.RotationProgress)
+				}
+				return 0
+			}}
+	case "genroot-shamir", "genroot-auto":
+		return &c20Path{lenCheck: lc, rekeys: false,
+			init: func() error {
+				otp, err := base62.Random(TokenPrefixLength + TokenLength)
+				if err != nil {
+					return err
+				}
+				return core.GenerateRootInit(ctx, otp, "", GenerateStandardRootTokenStrategy)
+			},
+			nonce: func() string {
+				if g := core.namespaceRootGens[ns.UUID]; g != nil {
+					return g.Config.Nonce
+				}
+				return ""
+			},
+			update: func(key []byte, nonce string) (bool, *RekeyResult, error) {
+				res, err := core.GenerateRootUpdate(ctx, key, nonce, GenerateStandardRootTokenStrategy)
+				return err == nil && res != nil && res.EncodedToken != "", nil, err
+			},
+			cancel: func() { _ = core.GenerateRootCancel(ctx) },
+			progress: func() int {
+				if g := core.namespaceRootGens[ns.UUID]; g != nil {
+					return len(g.Progress)
+				}
+				return 0
+			}}
+	}
+	t.Fatalf("unknown kind %s", rc.kind)
+	return nil
+}
+
+func c20Rotation(t *testing.T, out *vh.Out, rng *vh.Rand) {
+	ctx := namespace.RootContext(context.Background())
+	type cfg struct {
+		kind string
+		n, t int
+	}
+	cfgs := []cfg{{"root-shamir", 1, 1}, {"root-shamir", 3, 2}, {"root-shamir", 5, 3},
+		{"root-auto", 3, 2}, {"root-auto", 5, 3}, {"recovery", 3, 2}, {"recovery", 5, 3},
+		{"legacy-root-shamir", 3, 2}, {"legacy-root-auto", 5, 3}, {"legacy-recovery", 3, 2},
+		{"genroot-shamir", 3, 2}, {"genroot-auto", 5, 3}}
+	cases := 60
+	if vh.Thorough() {
+		cfgs = append(cfgs, cfg{"root-shamir", 7, 4}, cfg{"root-auto", 1, 1}, cfg{"root-auto", 10, 5},
+			cfg{"recovery", 1, 1}, cfg{"recovery", 7, 4}, cfg{"legacy-root-shamir", 1, 1}, cfg{"legacy-root-shamir", 5, 3},
+			cfg{"legacy-root-auto", 3, 2}, cfg{"legacy-recovery", 5, 3}, cfg{"genroot-shamir", 1, 1}, cfg{"genroot-auto", 3, 2})
+		cases = 600
+	}
+	for ci, c := range cfgs {
+		rc := c20NewRotCore(t, c.kind, c.n, c.t)
+		path := c20PathFor(t, rc, c.n, c.t)
+		thr := strconv.Itoa(c.t)
+		for k := 0; k < cases; k++ {
+			r := rng.Fork(uint64(7000000 + ci*1000003 + k))
+			path.cancel()
+			if err := path.init(); err != nil {
+				t.Fatalf("%v init: %v", c, err)
+			}
+			nonce := path.nonce()
+			out.Reset()
+			genuine := map[string]bool{}
+			for _, sh := range rc.shares {
+				genuine[string(sh)] = true
+			}
+			var hist [][]byte
+			attempt := map[string]bool{} // distinct recorded parts since the last completed combine
+			steps := 1 + r.Intn(c.t+4)
+			// some cases are a clean quorum (so that rotations do happen), some are all-forged of the right shape
+			mode := r.Intn(10)
+			done := false
+			for s := 0; s < steps && !done; s++ {
+				var part []byte
+				x := r.Intn(100)
+				switch {
+				case mode < 3:
+					x = r.Intn(50) // genuine only (+ repeats)
+				case mode == 3:
+					x = 80 + r.Intn(14) // forged parts of share shape only
+				}
+				sl := len(rc.shares[0])
+				switch {
+				case x < 40:
+					part = append([]byte(nil), rc.shares[r.Intn(len(rc.shares))]...)
+				case x < 50 && len(hist) > 0:
+					part = append([]byte(nil), hist[r.Intn(len(hist))]...)
+				case x < 50:
+					part = append([]byte(nil), rc.shares[r.Intn(len(rc.shares))]...)
+				case x < 56:
+					part = r.Bytes(r.Intn(16))
+				case x < 62:
+					part = r.Bytes(sl + 1 + r.Intn(8))
+				case x < 80:
+					part = r.Bytes(sl)
+				case x < 87:
+					part = r.Bytes(sl)
+					part[sl-1] = byte(1 + r.Intn(255))
+				case x < 94: // a genuine share with one y byte changed: same x tag, different part
+					part = append([]byte(nil), rc.shares[r.Intn(len(rc.shares))]...)
+					if sl > 1 {
+						part[r.Intn(sl-1)] ^= byte(1 + r.Intn(255))
+					} else {
+						part[0] ^= 1
+					}
+				default:
+					part = r.Bytes(16 + r.Intn(18))
+				}
+				hist = append(hist, part)
+				before := c20RotFingerprint(rc)
+				var res *RekeyResult
+				var err error
+				proceeded := false
+				cls := vh.Catch(func() string {
+					// a non-nil copy even when empty, as the API handlers produce (hex/base64 decoding of a non-empty string)
+					proceeded, res, err = path.update(append(make([]byte, 0, len(part)+1), part...), nonce)
+					return ""
+				})
+				after := c20RotFingerprint(rc)
+				if cls == "" {
+					cls = c20RotClass(proceeded, err)
+				}
+				p := path.progress()
+				if cls == "pending" {
+					cls = "pending:" + strconv.Itoa(p)
+				}
+				viol := ""
+				if cls != "dup" && cls != "short" && cls != "long" {
+					attempt[string(part)] = true
+				}
+				nGenuine := 0
+				for q := range attempt {
+					if genuine[q] {
+						nGenuine++
+					}
+				}
+				switch {
+				case cls == "proceeds":
+					if nGenuine < c.t {
+						viol = "!QUORUM:" + c.kind + " proceeded with " + strconv.Itoa(nGenuine) + " genuine distinct share(s) of threshold " + thr + "#c20-rotation-without-quorum"
+					} else if path.rekeys && after == before {
+						viol = "!QUORUM:rotation reported success but nothing was rotated#c20-rotation-noop"
+					}
+				case after != before:
+					viol = "!QUORUM:" + c.kind + " keys changed although the operation did not proceed (" + cls + ")#c20-rotation-without-quorum"
+				case strings.HasPrefix(cls, "pending") && p >= c.t:
+					viol = "!QUORUM:threshold reached without attempting recovery#c20-threshold-stall"
+				}
+				out.Op(cls+";progress="+strconv.Itoa(p)+viol, "rotate", c.kind, thr, path.lenCheck, vh.Hex(rc.secret), vh.Hex(part))
+				if cls == "verify-fail" || strings.HasPrefix(cls, "cerr") {
+					attempt = map[string]bool{}
+				}
+				if cls == "proceeds" {
+					done = true
+					// new key material: genuine shares / secret of the next case
+					switch c.kind {
+					case "root-shamir", "legacy-root-shamir":
+						rc.shares = res.SecretShares
+						rc.secret = c20ShamirKek(t, rc)
+					case "recovery", "legacy-recovery":
+						rc.shares = res.SecretShares
+						k, err := rc.core.seal.RecoveryKey(ctx)
+						if err != nil {
+							t.Fatalf("recovery key: %v", err)
+						}
+						rc.secret = k
+					}
+				}
+			}
+		}
+		path.cancel()
 	}
 }
